@@ -491,6 +491,28 @@ def hex_malformed():
         out.append(hexstr(s))
     return out
 
+def hex_stateful(seed=0):
+    """C14 across calls: an accepted line followed by malformed relatives of the SAME line (suffix, prefix, one byte
+    changed, case changed, doubled), under every relevant setting — a converter that remembers anything from the previous
+    call (a cache of the last line, a reused buffer) shows only here"""
+    import random
+    r = random.Random(seed * 7919 + 14)
+    out = ["new"] + ALL_CBS
+    def valid(n):
+        body = "".join(r.choice("0123456789abcdefABCDEF") for _ in range(16))
+        return (body + ("%02x" % r.randrange(256) if n == 18 else "")).encode()
+    sufs = [b"\n", b" ", b"0", b"00", b"g", b"\r\n", b"\x01", b"ff", b"\t"]
+    for rnd in range(60):
+        out.append("x %d" % (rnd % 2))
+        if rnd % 7 == 0: out.append("clear")
+        for n in (16, 18):
+            v = valid(n)
+            rel = [v + r.choice(sufs), v, v[:-1], v, r.choice(sufs) + v, v, v + v, v.swapcase() + r.choice(sufs), v]
+            k = r.randrange(len(v)); w = bytearray(v); w[k] = r.choice(b"gG xX-+\x7f\x80\xff"); rel += [bytes(w), v]
+            w = bytearray(v); w[k] = ord("0123456789abcdef"[(int(chr(v[k]), 16) + 1) % 16]); rel += [bytes(w), bytes(w) + b"\n"]
+            for x in rel: out.append(hexstr(x))
+    return out
+
 def hex_all_blocks(stride=1, phase=0):
     """all 65 536 four-digit blocks in both letter cases, in each of the four block positions"""
     out = ["new"] + ALL_CBS
